@@ -62,13 +62,20 @@ def specs():
     return S
 
 
-def _pipe_inputs(net, ix):
+def _pipe_inputs(net, ix, spec=None):
     pt = net.pipe
     S = int(pt.at[ix, "sections"])
     do = pt.at[ix, "outer_diameter_mm"]
     if is_nan(do):
         do = pt.at[ix, "inner_diameter_mm"]
     text = pt.at[ix, "text_k"]
+    if spec is not None:
+        # whether the pipe has its own ambient temperature is read from the *description*, not from the table after the
+        # run (a calculation that writes its default into the table would make itself consistent)
+        pipes = [e for e in spec["elems"] if e["t"] == "pipe"]
+        pos = list(pt.index).index(ix)
+        if pos < len(pipes) and "text_k" in pipes[pos] and pipes[pos]["text_k"] is None:
+            text = float("nan")
     if is_nan(text):
         text = net._options["ambient_temperature"]
     return dict(U=_t(pt.at[ix, "u_w_per_m2k"]), L=_t(pt.at[ix, "length_km"]) * 1000 / S, do=_t(do) / 1000, text=_t(text), S=S)
@@ -85,7 +92,7 @@ def obligations(st, names, job):
         if tbl != "pipe":
             continue
         row = _t(st.rows["Tout|" + b][0])
-        inp = _pipe_inputs(net, int(ix))
+        inp = _pipe_inputs(net, int(ix), job.get("spec"))
         tin, tout, m = _t(st.T[st.upstream(b)]), _t(st.Tout[b]), _t(st.m[b])
         args = thermal.exp_args(row)
         if len(args) == 1:
@@ -105,6 +112,20 @@ def obligations(st, names, job):
             amb = _t(net._options["ambient_temperature"])
             obs.append({"label": "pipe %s section %s without flow: outlet at ambient temperature" % (ix, k),
                         "fp": "C10/cooling/noflow", "goal": row == amb - tout, "replay": {"kind": "cooling"}})
+    # reported values: t_outlet_k of every pipe is the outlet temperature of the section through which the fluid leaves
+    # it, t_from_k / t_to_k and res_junction.t_k are the temperatures of the end junctions
+    for ix in net.pipe.index:
+        S = int(net.pipe.at[ix, "sections"])
+        secs = ["pipe:%s:%d" % (ix, k) for k in range(S)]
+        if any(b_ not in st.Tout for b_ in secs) or is_nan(net.res_pipe.at[ix, "t_outlet_k"]) or secs[0] not in st.active_branches:
+            continue
+        bout = secs[0] if st.switched[secs[-1]] else secs[-1]
+        obs.append({"label": "pipe %s: reported t_outlet_k = outlet temperature of its own flow-outlet section" % ix,
+                    "fp": "C10/reported/t_outlet", "goal": _t(net.res_pipe.at[ix, "t_outlet_k"]) == _t(st.Tout[bout]),
+                    "replay": {"kind": "cooling"}})
+        obs.append({"label": "pipe %s: reported t_from_k / t_to_k = end junction temperatures" % ix, "fp": "C10/reported/t_ends",
+                    "goal": z3.And(_t(net.res_pipe.at[ix, "t_from_k"]) == _t(st.T[st.fn[secs[0]]]),
+                                   _t(net.res_pipe.at[ix, "t_to_k"]) == _t(st.T[st.tn[secs[-1]]])), "replay": {"kind": "cooling"}})
     # mixing rows
     from pandapipes.idx_node import INFEED
     infeed = {st.nn[i] for i in range(len(st.nn)) if bool(st.npit[i, INFEED])}
@@ -170,8 +191,32 @@ def witnesses(names, p0, job):
     return ws
 
 
+def rerun_spec():
+    """pipes without their own ambient temperature (text_k unset): the option ambient_temperature of the call applies"""
+    return {"name": "w_text_default", "fluid": "water", "nj": 3, "elems": [
+        E("ext_grid", j=0, t_k=350.0), E("pipe", f=0, to=1, u=6.0, text_k=None), E("pipe", f=2, to=1, u=4.0, text_k=None, sections=2),
+        E("sink", j=2), E("sink", j=1)]}
+
+
+def labels_spec():
+    """heat line with pipe labels whose sorting permutation is a 3-cycle and different section counts"""
+    return {"name": "w_heat_labels", "fluid": "water", "nj": 4, "elems": [
+        E("ext_grid", j=0, t_k=355.0), E("pipe", f=0, to=1, u=5.0, sections=3, index=12), E("pipe", f=1, to=2, u=6.0, sections=1, index=10),
+        E("pipe", f=3, to=2, u=4.0, sections=2, index=11), E("sink", j=3), E("sink", j=1)]}
+
+
 def jobs(tier, seed):
     out = []
+    for numba in (False, True):
+        out.append({"name": "w_heat_labels/sequential/%s" % ("numba" if numba else "numpy"), "spec": labels_spec(),
+                    "pfmode": "sequential", "numba": numba})
+    for numba in (False, True):
+        # the examined call follows an earlier call with another ambient temperature on the same net object
+        out.append({"name": "w_text_default/rerun/%s" % ("numba" if numba else "numpy"), "spec": rerun_spec(), "pfmode": "sequential",
+                    "numba": numba, "pre_run": {"mode": "hydraulics", "ambient_temperature": 268.15},
+                    "pfkw": {"ambient_temperature": 310.0}})
+        out.append({"name": "w_text_default/fresh/%s" % ("numba" if numba else "numpy"), "spec": rerun_spec(), "pfmode": "sequential",
+                    "numba": numba, "pfkw": {"ambient_temperature": 310.0}})
     sp = specs()
     if tier == "thorough":
         import random
@@ -188,7 +233,7 @@ def jobs(tier, seed):
 
 
 def worker(job):
-    return thermal.thermal_worker(job, obligations, "C10", witnesses_fn=witnesses)
+    return thermal.thermal_worker(job, obligations, "C10", witnesses_fn=witnesses, pfkw=job.get("pfkw"))
 
 
 def replay(rs):
@@ -197,13 +242,20 @@ def replay(rs):
     import math
     spec = rs["spec"]
     mode = rs.get("pfmode") or "sequential"
+    pfkw = dict(rs.get("pfkw") or {})
     for values in (rs.get("values", {}), {}):
         for numba in (False, True):
             net, _ = nets.build(spec, nets.concrete_valuer(values))
+            text_before = net.pipe["text_k"].copy()
+            if rs.get("pre_run"):
+                pre = {k: (268.15 if isinstance(v, str) and v.startswith("sym:") else v) for k, v in rs["pre_run"].items()}
+                concrete_pipeflow(net, use_numba=numba, **pre)
             ok, err = concrete_pipeflow(net, use_numba=numba, mode=mode, tol_p=1e-10, tol_m=1e-10, tol_res=1e-10, tol_T=1e-10,
-                                        max_iter_hyd=300, max_iter_therm=300, max_iter_bidirect=300)
+                                        max_iter_hyd=300, max_iter_therm=300, max_iter_bidirect=300, **pfkw)
             if not ok:
                 continue
+            # the ambient temperature of the law is the one the user gave: text_k of the pipe, else the option of *this* call
+            net.pipe["text_k"] = text_before.fillna(float(net._options["ambient_temperature"]))
             worst, where = _numeric_laws(net)
             if worst > 1e-6:
                 return True, {"worst": worst, "where": where, "numba": numba}
